@@ -10,7 +10,8 @@ Record obs := mkObs {
   o_sunwind : option (list Z);      (* Stack.Unwind() of the result when it is a Stack pointer *)
   o_is : list (err * bool);         (* errors.Is(result, t) for every leaf t of the universe *)
   o_as : list (askind * Z);         (* errors.As(result, &target of that type): identity found, -1 if none *)
-  o_len : Z                         (* Collector.Len() / Stack.Len() of the top-level object, -1 otherwise *)
+  o_len : Z;                        (* Collector.Len() / Stack.Len() of the top-level object, -1 otherwise *)
+  o_vlen : Z                        (* Len() of the result when it is a Stack pointer (0 for an inner layer), -1 otherwise *)
 }.
 
 Inductive case := CTree (id : Z) (x : expr) (o : obs).
@@ -33,7 +34,7 @@ Definition top_len (x : expr) : Z :=
   end.
 
 Definition model_sunwind (v : err) : option (list Z) :=
-  match v with Stk _ es => Some (map eid (chain_unwind es)) | _ => None end.
+  match v with Stk _ _ es => Some (map eid (chain_unwind es)) | _ => None end.
 
 Definition check_case (c : case) : bool :=
   match c with
@@ -50,6 +51,7 @@ Definition check_case (c : case) : bool :=
       && forallb (fun p => Bool.eqb (go_is v (fst p)) (snd p)) (o_is o)
       && forallb (fun p => match go_as v (fst p) with Some f => eid f | None => -1 end =? snd p) (o_as o)
       && (top_len x =? o_len o)
+      && (value_len v =? o_vlen o)
   end.
 
 Definition mismatches (cs : list case) : list Z :=
